@@ -281,6 +281,27 @@ def case(args):
         w, tag = assignment_world(param)
         extra = ["--no_model_construction"]
         models = False
+    elif kind == "noisy":
+        # hand-made noisy reads that exercise side-specific code: (0) read overhanging the 5' end of a multi-exon isoform inside a long
+        # mono-exonic one, every intron shifted by 10 (left/right terminal penalties of the isoform pre-selection); (1) read with a 6-bp
+        # exon that shares the END of a 40-bp annotated exon (overlap tests with equal right / left ends)
+        from vlib import worlds as W
+        w = W.base_world(1, 9000)
+        if param[0] == 0:
+            w["genes"].append({"id": "G1", "chr": "chr1", "strand": param[1], "transcripts": [
+                {"id": "X", "exons": [[401, 3000]]},
+                {"id": "Y", "exons": [[1000, 1200], [1501, 1700], [2001, 2200], [2501, 2700]]}]})
+            blocks = [[[985, 1210], [1511, 1710], [2011, 2210], [2511, 2690]], [[1010, 1210], [1511, 1710], [2011, 2210], [2511, 2715]]]
+        else:
+            w["genes"].append({"id": "G1", "chr": "chr1", "strand": param[1], "transcripts": [
+                {"id": "Y", "exons": [[501, 700], [1001, 1040], [1301, 1500], [1801, 2000]]}]})
+            blocks = [[[511, 700], [1035, 1040], [1301, 1500], [1801, 1990]], [[511, 700], [1001, 1006], [1301, 1500], [1801, 1990]]]
+        syn.plant_for_transcripts(w)
+        w["reads"] = [{"name": "n%d" % i, "chr": "chr1", "blocks": b, "reverse": param[1] == "-"} for i, b in enumerate(blocks)]
+        w["reads"].append({"name": "edge", "chr": "chr1", "blocks": [[1, 300]], "reverse": False})
+        tag = "noisy%d%s" % (param[0], "p" if param[1] == "+" else "m")
+        extra = ["--no_model_construction"]
+        models = False
     elif kind == "boundary":
         # isolated mono-exonic reads next to gene boundaries (each read is a read cluster of its own): adjacent to the first / last base of
         # a gene without overlapping it (gene GA), overlapping exactly one base (gene GB); param = strand of the genes
@@ -385,6 +406,8 @@ def run(ctx):
     for strand in "+-":
         for tr in (["reflect", 257] if quick else list(shifts) + ["reflect"]):
             jobs.append(("boundary", strand, tr, ctx.scratch))
+        for v in (0, 1):
+            jobs.append(("noisy", (v, strand), "reflect", ctx.scratch))
     from props import c13
     ids = sorted(c13.ISO_MENU)
     c13_variants = [0, 1, 2] + [(isos, sec) for n in (1, 2) for isos in itertools.combinations(ids, n) for sec in c13.SECOND]
